@@ -1781,7 +1781,14 @@ func propC19(r *Run, w *World) {
 	r.Check(okE, "IsExpired", x.isExpired.Pos(), "time.Now().After(e.expireTime)", "IsExpired is not time.Now().After(e.expireTime)")
 	for _, a := range Writes(w.FieldAccesses(x.fExpire)) {
 		ok := a.Kind == "store" && x.w.ownedBy(a.Fn, x.put) && Term(a.Val) == "(time.Time).Add(time.Now(), p0.timeout)"
-		r.Check(ok, "expireTime written in "+fnName(a.Fn), a.Instr.Pos(), "time.Now().Add(l.timeout) at creation", "expireTime is written elsewhere or with another value: "+a.Kind+" "+func() string {
+		// ... and only into the event being created: the address is a field of a fresh allocation,
+		// not of an event that was looked up (re-arming the timeout on every record would measure
+		// it from the last record instead of the first)
+		fresh := false
+		if a.Addr != nil {
+			_, fresh = a.Addr.X.(*ssa.Alloc)
+		}
+		r.Check(ok && fresh, "expireTime written in "+fnName(a.Fn), a.Instr.Pos(), "time.Now().Add(l.timeout) at creation", "expireTime is written elsewhere, into an existing event, or with another value: "+a.Kind+" "+func() string {
 			if a.Val != nil {
 				return Term(a.Val)
 			}
@@ -1941,7 +1948,7 @@ func propC11(r *Run, w *World) {
 					continue // the load itself is already an access
 				}
 				key := fmt.Sprintf("%s.%s %s in %s", T.Obj().Name(), fieldName(fv), a.Kind, fnName(a.Fn))
-				held := li.Held(a.Instr)[class]
+				held := li.HeldFor(a.Instr, class, a.Kind)
 				switch {
 				case held:
 					r.OK(key, a.Instr.Pos(), "lock held")
